@@ -1352,7 +1352,9 @@ func genJSON(c *Ctx) {
 			case 5: // a later series shorter
 				if len(s.inputs) > 1 && T > 1 {
 					i := r.Range(1, len(s.inputs)-1)
-					s.inputs[i].vals = s.inputs[i].vals[:r.Range(0, T-1)]
+					if n := len(s.inputs[i].vals); n > 1 {
+						s.inputs[i].vals = s.inputs[i].vals[:r.Range(0, n-1)]
+					}
 					kind = "later-shorter"
 				}
 			case 6: // duplicate input name, second copy of another length
